@@ -35,6 +35,10 @@ retry_harness!(c07_q_xx_w2_outofturn, step_write_pre, 1, Pat::XX, 0, 2, Pre::Out
 retry_harness!(c07_q_xx_r2_outofturn, step_read_pre, 1, Pat::XX, 0, 2, Pre::OutOfTurn);
 retry_harness!(c07_q_xx_r2_smallpayloadbuf, step_read_pre, 2, Pat::XX, 0, 2, Pre::SmallPayloadBuf);
 retry_harness!(c07_q_x1n_w2_smallbuf_10, step_write_pre, 2, Pat::X1N, 0, 2, Pre::SmallBuf(10));
+// a rejected foreign message must not leave its ephemeral behind (message k starts with "e" and has more fields)
+retry_harness!(c07_q_xx_r1_foreign_ephemeral, step_read_pre, 1, Pat::XX, 0, 1, Pre::ForeignEphemeralThenShort);
+retry_harness!(c07_q_nn_r1_foreign_ephemeral, step_read_pre, 1, Pat::NN, 0, 1, Pre::ForeignEphemeralThenShort);
+retry_harness!(c07_t_ik_r0_foreign_ephemeral, step_read_pre, 1, Pat::IK, 0, 0, Pre::ForeignEphemeralThenShort);
 // psk token last in its message (everything before it has been mixed when MissingPsk is raised)
 retry_harness!(c07_q_nnpsk1_w0_missingpsk, step_write_pre, 1, Pat::NN, 2, 0, Pre::MissingPsk(1));
 retry_harness!(c07_q_xxpsk3_r2_missingpsk, step_read_pre, 1, Pat::XX, 8, 2, Pre::MissingPsk(3));
@@ -114,7 +118,7 @@ pub fn auth_fail_then_retry(pat: Pat, psk_mask: u16, k: usize, fail_at: u32) {
         O_DEC_FAIL_AT[0] = fail_at;
     }
     let r1 = hs.read_message(&msg[..fixed + 2], &mut out);
-    assert!(r1 == Err(snow::Error::Decrypt), "C07 harness: the tampered delivery must be rejected");
+    assert!(r1 == Err(snow::Error::Decrypt), "C03: a handshake message whose encrypted field the cipher rejects was accepted");
     let calls1 = unsafe { O_DEC_CALLS[0] };
     unsafe {
         O_DEC_FAIL_AT[0] = 0;
@@ -172,11 +176,11 @@ pub fn prev_step_then_fail_then_step(pat: Pat, psk_mask: u16, k: usize) {
     let r0 = hs.read_message(&m[..n], &mut o);
     let mut o2 = [0u8; 8];
     HsOps::<P>::read(&mut rm_x, &m[..n], &mut o2, &mut ok);
-    assert!(ok && r0 == Ok(1), "C07 harness: genuine message k-1 must be read");
+    assert!(ok && r0 == Ok(1), "C02: an honest handshake message was not read");
     // failing call: a read when it is X's turn to write
     let junk: [u8; 6] = kani::any();
     let r1 = hs.read_message(&junk, &mut o);
-    assert!(r1.is_err(), "C07 harness: out-of-turn read must fail");
+    assert!(r1.is_err(), "C11: an out-of-turn read was accepted");
     // now message k
     let e2: [u8; 8] = kani::any();
     set_rng_slot(0, &e2);
